@@ -327,6 +327,43 @@ def rule_r2(ctx) -> List[R.Inst]:
                                 construct=unparse(body)))
         else:
             insts.append(R.undec(rid, "speed-formula", file, sp.lineno, "speed formula not in modelled arithmetic"))
+    # extent: the head / tail sentinels are the first and last time of ALL lists of the chart (the stack without a type filter)
+    p0_ = params_of(fn.node)[0]
+
+    def _res_local(e, depth=0):
+        if isinstance(e, ast.Name) and depth < 4:
+            ds = [x for x in walk_no_nested(fn.node) if isinstance(x, ast.Assign) and len(x.targets) == 1]
+            for x in ds:
+                t_ = x.targets[0]
+                if isinstance(t_, ast.Name) and t_.id == e.id:
+                    return _res_local(x.value, depth + 1)
+                if isinstance(t_, ast.Tuple) and isinstance(x.value, ast.Tuple) and len(t_.elts) == len(x.value.elts):
+                    for a_, b_ in zip(t_.elts, x.value.elts):
+                        if isinstance(a_, ast.Name) and a_.id == e.id:
+                            return _res_local(b_, depth + 1)
+        if isinstance(e, ast.Call) and isinstance(e.func, ast.Attribute) and e.func.attr in ("min", "max") and not e.args:
+            import copy as _c
+            e2 = _c.deepcopy(e)
+            e2.func.value = _res_local(e.func.value, depth + 1)
+            return e2
+        return e
+    sent = None
+    for n in walk_no_nested(fn.node):
+        if isinstance(n, ast.Call) and call_name(n) == "DataFrame" and n.args and isinstance(n.args[0], ast.Dict):
+            d_ = {k.value: v for k, v in zip(n.args[0].keys, n.args[0].values) if isinstance(k, ast.Constant)}
+            if isinstance(d_.get("offset"), ast.List) and len(d_["offset"].elts) == 2 and sent is None:
+                sent = (n, [unparse(_res_local(x)) for x in d_["offset"].elts])
+    if sent is None:
+        insts.append(R.undec(rid, "extent", file, fn.node.lineno, "head / tail sentinel rows not found"))
+    else:
+        want_ = [f"{p0_}.stack().offset.min()", f"{p0_}.stack().offset.max()"]
+        if sent[1] == want_:
+            insts.append(R.ok(rid, "extent", file, sent[0].lineno, idiom="sentinels at min / max offset over the stack of all lists"))
+        else:
+            insts.append(R.viol(rid, "extent", file, sent[0].lineno,
+                                f"the speed series must span the whole chart: its head and tail are the first and last time over ALL lists "
+                                f"({want_[0]} / …max()), found {sent[1]} — an SV or tempo point before the first of those, or an object "
+                                f"after the last, is cut off or left out", construct=f"sentinels at {sent[1]}"))
     # SV precedence: concat [tempo resets with multiplier 1, sentinels, svs] then groupby(offset).last()
     sv_concat = None
     for n in walk_no_nested(fn.node):
